@@ -64,6 +64,14 @@ def build(rng, n, m, rects, place):
         body = before
         parts['footnotes.xml'] = ('footnotes', '<w:footnotes NS><w:footnote w:id="2">' + p(r('«9006»note')) + xml + p(r('«9007»end')) + '</w:footnote></w:footnotes>')
     data = docx(body, parts=parts)
+    if rng.random() < 0.2:
+        # the same package in the strict (ISO) namespaces, bound to the customary prefixes
+        import io as _io, zipfile as _zf
+        from gen.reserialize import strict, is_xml
+        z = _zf.ZipFile(_io.BytesIO(data)); b = _io.BytesIO()
+        with _zf.ZipFile(b, 'w') as o:
+            for n in z.namelist(): o.writestr(n, strict(rng, n, z.read(n)) if is_xml(n) else z.read(n))
+        data = b.getvalue()
     attr = {'header': 'header', 'footnote': 'footnotes'}.get(place, 'body')
     return data, expected, attr, tx
 
